@@ -4,4 +4,5 @@ pub mod val;
 pub mod eng;
 pub mod ast;
 pub mod gen;
+pub mod conv;
 pub mod monitors;
